@@ -367,14 +367,38 @@ func (m *Machine) access(th *Thread, obj interface{}, write bool) {
 	}
 }
 
+func isHarnessFunc(name string) bool {
+	if strings.HasPrefix(name, "Verif") || strings.HasPrefix(name, "verif") || strings.HasPrefix(name, "vnd") {
+		return true
+	}
+	return len(name) > 1 && name[0] == 'v' && name[1] >= 'A' && name[1] <= 'Z'
+}
+
+// whereRace names an access as "<API entry>><innermost function>@file:line": the innermost frame
+// inside the repository under test, prefixed by the outermost repository function below the
+// harness (so that the same leaf reached through different operations is told apart).
 func (th *Thread) whereRace() string {
-	// innermost frame inside the repository under test
+	inner, outer := "", ""
+	pos := ""
 	for f := th.fr; f != nil; f = f.caller {
-		if f.instr != nil && f.fn.Pkg != nil && th.m.P.isRepoPkg(f.fn.Pkg) && !strings.HasPrefix(f.fn.Name(), "verifModel") {
-			return fmt.Sprintf("%s@%s", f.fn.Name(), th.m.posString(f.instr.Pos()))
+		if f.instr == nil || f.fn.Pkg == nil || !th.m.P.isRepoPkg(f.fn.Pkg) || strings.HasPrefix(f.fn.Name(), "verifModel") {
+			continue
+		}
+		if inner == "" {
+			inner = f.fn.Name()
+			pos = th.m.posString(f.instr.Pos())
+		}
+		if !isHarnessFunc(f.fn.Name()) {
+			outer = f.fn.Name()
 		}
 	}
-	return th.where()
+	if inner == "" {
+		return th.where()
+	}
+	if outer != "" && outer != inner && !isHarnessFunc(inner) {
+		return fmt.Sprintf("%s>%s@%s", outer, inner, pos)
+	}
+	return fmt.Sprintf("%s@%s", inner, pos)
 }
 
 func (m *Machine) accessPtr(th *Thread, p Ptr, write bool) {
